@@ -5,15 +5,16 @@
 (* reference the operational parser models (Parser20/3x/40) are checked    *)
 (* against, and the oracle the real parsers are compared with.             *)
 (***************************************************************************)
-EXTENDS Metrics, Lex
+EXTENDS Metrics, Lex, TLC
 
 SpecStrings ==
   UNION {MetricSet(ver) : ver \in VersionSet}
   \cup UNION {UNION {Values(ver, m) : m \in MetricSet(ver)} : ver \in VersionSet}
   \cup {Header(ver) : ver \in VersionSet}
 
-(* byte spelling of every specification string, evaluated once *)
-SB == [s \in SpecStrings |-> StrBytes(s)]
+(* byte spelling of every specification string, evaluated once: "@@" with the   *)
+(* empty function turns TLC's lazily evaluated closure into an explicit table   *)
+SB == [s \in SpecStrings |-> StrBytes(s)] @@ <<>>
 
 NoMetric == "-"
 
